@@ -787,10 +787,132 @@ def run_schedule_scenario(sc, res):
     return log
 
 
+# ---- lying server on the batch entry point ------------------------------------------------------------
+# request_transactions()/_single_batch() (cached=True: resolve / claim_search; cached=False: history sync) with a
+# server that (a) answers a requested txid with ALTERED transaction bytes (one byte xor 0x01, every byte of two
+# transactions) and the genuine proof of the requested txid, or (b) is asked for a transaction a second time
+# under a DIFFERENT height (neighbouring heights, a height the wallet holds no header for) after a first,
+# genuine, request.  Whatever a call returns as verified must hash - from the bytes the object carries - up a
+# supplied branch to the local header at the height the object records.
+
+LIE_TARGETS = ((3, 0), (6, 2))       # (height, index): block of 2 and block of 4 transactions
+
+
+def lie_scenarios():
+    w = ReorgWorld()
+    out = []
+    for entry in ('cached', 'uncached'):
+        for (h, i) in LIE_TARGETS:
+            for p in range(len(w.txs[h][i])):
+                out.append(('lie', entry, 'tx-byte', h, i, p))
+        for first in ('cached', 'uncached', 'none'):
+            for dh in (-1, 1, 'beyond', 'zero'):
+                out.append(('lie', entry, 'relabel', first, dh, 0))
+    return out
+
+
+def run_lie_scenario(sc, res):
+    from vf.vloop import VLoop
+    from lbry.wallet.ledger import Ledger
+    from lbry.wallet.header import Headers
+    from refs import merkle as M
+    _, entry, kind, a, b, c = sc
+    w = ReorgWorld()
+
+    class SyntheticHeaders(Headers):
+        validate_difficulty = False
+        genesis_hash = None
+        checkpoints = {}
+    loop = VLoop().activate()
+    log = []
+    rep = {'family': 'reorg', 'scenario': list(sc)}
+    sig_base = {'family': 'lying-batch', 'entry': entry, 'lie': kind}
+    try:
+        headers = SyntheticHeaders(':memory:')
+        loop.run(headers.open())
+        assert loop.run(headers.connect(0, b''.join(w.old_chain))) == REORG_LEN
+        server = ReorgServer(w)
+        ledger = Ledger({'db': _StubDB(), 'headers': headers, 'network': server})
+        headers.checkpoints = {}
+        genuine_heights = {M.to_hex(M.sha256d(r)): h for h in sorted(w.txs) for r in w.txs[h]}
+        wanted = list(genuine_heights.items())
+
+        def local_root(h):
+            return bytes(headers.io.getbuffer())[h * 112 + 36:h * 112 + 68]
+
+        async def request(what, cached):
+            got = []
+            async for txs in ledger.request_transactions(tuple(what), cached=cached):
+                got.extend(txs.items())
+            return got
+
+        def judge(stage, got):
+            for key, tx in got:
+                res.count('evaluations')
+                leaf = M.sha256d(tx.raw)
+                okp = False
+                if tx.is_verified and isinstance(tx.height, int) and 0 <= tx.height < len(headers):
+                    proofs = server.supplied.get(key, []) + (server.supplied.get(tx.id, []) if tx.id != key else [])
+                    okp = any(pos == tx.position and M.fold([M.from_hex(x) for x in br], pos, leaf) == local_root(tx.height)
+                              for (h, pos, br) in proofs)
+                line = (f'{stage}: answer for {key[:12]}.. carries bytes hashing to {M.to_hex(leaf)[:12]}.., is_verified={tx.is_verified} '
+                        f'height={tx.height} position={tx.position}; its bytes hash up a supplied branch to the local header there: {okp}')
+                log.append(line)
+                if tx.is_verified and not okp:
+                    res.violation(dict(sig_base, kind='verified-without-a-proof-for-these-bytes-at-this-height'),
+                                  line + f' | scenario {sc}', rep)
+                elif tx.is_verified:
+                    res.count('verified_and_consistent')
+
+        def attempt(stage, what, cached):
+            try:
+                judge(stage, loop.run(request(what, cached)))
+            except Exception as e:   # noqa - a refusal; what the ledger holds afterwards is judged by the next request
+                res.tally(f'lying-batch-raised-{type(e).__name__}:{kind}')
+                log.append(f'{stage}: raised {e!r}')
+
+        if kind == 'tx-byte':
+            h, i, p = a, b, c
+            raw = w.txs[h][i]
+            lie = raw[:p] + bytes([raw[p] ^ 1]) + raw[p + 1:]
+            target = M.to_hex(M.sha256d(raw))
+            honest_answer = server.answer_batch
+
+            def lying_answer(txids, blocks):
+                out = honest_answer(txids, blocks)
+                if target in out:
+                    out[target] = (lie.hex(), out[target][1])
+                return out
+            server.answer_batch = lying_answer
+            attempt('lying request', wanted, entry == 'cached')
+            res.witness('altered_transaction_bytes_with_the_genuine_proof_on_the_batch_path')
+            # the same ledger afterwards, honest server: nothing stale may surface as verified
+            server.answer_batch = honest_answer
+            attempt('honest request afterwards', wanted, entry == 'cached')
+        else:
+            first, dh = a, b
+            if first != 'none':
+                attempt('first (genuine) request', wanted, first == 'cached')
+            relabelled = []
+            for txid, h in wanted:
+                h2 = {'beyond': REORG_LEN + 1, 'zero': 0}.get(dh, h + dh if isinstance(dh, int) else h)
+                relabelled.append((txid, h2))
+            attempt(f'second request under heights {dh}', relabelled, entry == 'cached')
+            attempt('third request, genuine heights', wanted, entry == 'cached')
+            res.witness('transaction_requested_again_under_a_different_height')
+        res.count('executions')
+        res.distinct_add('nontrivial', tuple(sc[:5]) if kind != 'tx-byte' else ('lie', entry, kind, a, b))
+    finally:
+        loop.shutdown()
+    return log
+
+
 def work_reorg(item, res):
     for sc in item:
         if sc[0] == 'sched':
             run_schedule_scenario(tuple(sc), res)
+        elif sc[0] == 'lie':
+            run_lie_scenario(tuple(sc), res)
         else:
             run_reorg_scenario(tuple(sc), res)
 
@@ -813,6 +935,8 @@ def run(ctx):
     ctx.pmap(work, items)
     scs = [list(sc) for sc in reorg_scenarios()] + [list(sc) for sc in schedule_scenarios()]
     ctx.pmap(work_reorg, [scs[k::4] for k in range(4)])
+    lies = [list(sc) for sc in lie_scenarios()]
+    ctx.pmap(work_reorg, [lies[k::16] for k in range(16)])
     w = world(N)
     ctx.res.sample({'block_size': 3, 'index': 2, 'genuine_proof': genuine(w, 3, 2),
                     'note': 'last leaf of an odd level: first branch element is the leaf itself'})
@@ -835,6 +959,10 @@ def run(ctx):
               'cached request twice.  Schedule dimension: get_transaction_batch / get_merkle replies are explicit events; the '
               'reorganisation (1 replaced header) is placed before the request, while the reply is pending, after it, and in '
               'every order around the replies of two overlapping requests; reply as of arrival or as of delivery.  '
+              'Lying server on the batch entry point (cached and uncached): every byte xor 0x01 of two transactions answered '
+              'with the genuine proof of the requested txid, then an honest request on the same ledger; and a second request '
+              'for the same transactions under heights h-1, h+1, 0 and beyond the tip after a cached / uncached / no first '
+              'request, then a third request under the genuine heights.  '
               'Non-trivial/distinct = distinct (mutation kind, n, i, detail, history) tuples and '
               'reorg scenarios.'),
         exhaustive=True,
@@ -847,7 +975,9 @@ def run(ctx):
         expected_witnesses=['genuine_proof_through_duplicated_node', 'branch_of_five_or_more_levels',
                             'reorg_replaced_headers_below_cached_transactions',
                             'cached_request_served_without_asking_the_server',
-                            'header_replaced_while_a_reply_was_pending', 'verified_after_reorg_against_the_new_header'],
+                            'header_replaced_while_a_reply_was_pending', 'verified_after_reorg_against_the_new_header',
+                            'altered_transaction_bytes_with_the_genuine_proof_on_the_batch_path',
+                            'transaction_requested_again_under_a_different_height'],
     )
 
 
@@ -856,7 +986,8 @@ def replay(data):
     if data.get('family') == 'reorg':
         res = Result()
         sc = tuple(data['scenario'])
-        log = '\n'.join(run_schedule_scenario(sc, res) if sc[0] == 'sched' else run_reorg_scenario(sc, res))
+        log = '\n'.join(run_schedule_scenario(sc, res) if sc[0] == 'sched' else
+                        run_lie_scenario(sc, res) if sc[0] == 'lie' else run_reorg_scenario(sc, res))
         for v in res.violations.values():
             log += '\nVIOLATION: ' + v['what']
         return bool(res.violations), log
